@@ -17,6 +17,8 @@ def showEv : Ev → String
   | .onClose c r => s!"C:{c}:{toHex r}"
   | .onError => "E"
   | .closeSession => "X"
+  | .connected => "O"
+  | .upgraded => "H101"
 
 def showEvs (evs : List Ev) : String :=
   if evs.isEmpty then "-" else ";".intercalate (evs.map showEv)
@@ -27,28 +29,50 @@ def showCEv : CEv → String
   | .sent op fin pl => s!"S:{op}:{bit fin}:{toHex pl}"
   | .onClose c r => s!"C:{c}:{toHex r}"
   | .onError => "E"
+  | .connected => "O"
 
 def showCEvs (evs : List CEv) : String :=
   if evs.isEmpty then "-" else ";".intercalate (evs.map showCEv)
 
+/-- `Sec-WebSocket-Accept` for the key the harness installs (`dGhlIHNhbXBsZSBub25jZQ==`, RFC 6455 §1.3) -/
+def sampleAccept : Bytes := "s3pPLMBiTxaQ9kYGzzhZRbK+xOo=".toUTF8.toList
+
 structure St where
   maxFrame : Nat := 16777216
+  cb : Cbs := {}
   sess : Sess := {}
+  ccfg : CCfg := { accept := sampleAccept }
   cli : CSess := {}
 
 def showCSt (s : CSess) : String :=
-  s!"buf={s.buffer.length} connected={bit s.connected} closeSent={bit s.closeSent} failed={bit s.protocolFailed}"
+  s!"buf={s.buffer.length} frag={s.fragBuf.length} connected={bit s.connected} closeSent={bit s.closeSent} failed={bit s.protocolFailed} upgraded={bit s.upgraded}"
 
 def stepCli (st : St) (op : COp) : St × String :=
-  let (s', evs) := cStep st.cli op
+  let (s', evs) := cStep st.ccfg st.cli op
   ({ st with cli := s' }, s!"{showCEvs evs} | {showCSt s'}")
 
 def showSt (s : Sess) : String :=
-  s!"buf={s.buffer.length} alive={bit s.alive} closeSent={bit s.closeSent}"
+  s!"buf={s.buffer.length} frag={s.fragBuf.length} alive={bit s.alive} closeSent={bit s.closeSent}"
 
 def stepOp (st : St) (op : AppOp) : St × String :=
-  let (s', evs) := Iora.Ws.step st.maxFrame st.sess op
+  let (s', evs) := Iora.Ws.step st.maxFrame st.cb st.sess op
   ({ st with sess := s' }, s!"{showEvs evs} | {showSt s'}")
+
+/-- one scripted send: `t:<hex>` `b:<hex>` `p:<hex>` `c:<code>:<hex>` -/
+def parseSend (s : String) : Option Send :=
+  match s.splitOn ":" with
+  | ["t", hx] => (ofHex hx).map Send.text
+  | ["b", hx] => (ofHex hx).map Send.binary
+  | ["p", hx] => (ofHex hx).map Send.ping
+  | ["c", code, hx] =>
+    match code.toNat?, ofHex hx with
+    | some c, some r => some (Send.close c r)
+    | _, _ => none
+  | _ => none
+
+/-- a callback script: `-` (nothing) or comma-separated sends -/
+def parseScript (s : String) : Option (List Send) :=
+  if s = "-" then some [] else (s.splitOn ",").mapM parseSend
 
 def step (st : St) : List String → St × String
   | ["parse", max, hx] =>
@@ -64,9 +88,23 @@ def step (st : St) : List String → St × String
     match ofHex hx with
     | some d => (st, bit (isValidUtf8 d))
     | none => (st, "bad-op")
+  | ["mkclose", code, hx] =>
+    match code.toNat?, ofHex hx with
+    | some c, some r => (st, toHex (serialize (makeClose c r)))
+    | _, _ => (st, "bad-op")
   | ["srv", "reset", max] =>
     match max.toNat? with
-    | some m => ({ st with maxFrame := m, sess := {} }, "ok")
+    | some m => ({ st with maxFrame := m, sess := {}, cb := {} }, "ok")
+    | none => (st, "bad-op")
+  | ["srv", "script", a, b, c, d] =>
+    match parseScript a, parseScript b, parseScript c, parseScript d with
+    | some a, some b, some c, some d => ({ st with cb := { onText := a, onBinary := b, onClose := c, onError := d } }, "ok")
+    | _, _, _, _ => (st, "bad-op")
+  | ["srv", "upgrade", hx] =>
+    match ofHex hx with
+    | some d =>
+      let (s', evs) := upgrade st.maxFrame st.cb d
+      ({ st with sess := s' }, s!"{showEvs evs} | {showSt s'}")
     | none => (st, "bad-op")
   | ["srv", "data", hx] =>
     match ofHex hx with
@@ -88,7 +126,17 @@ def step (st : St) : List String → St × String
     match code.toNat?, ofHex hx with
     | some c, some d => stepOp st (.sendClose c d)
     | _, _ => (st, "bad-op")
-  | ["cli", "reset"] => ({ st with cli := {} }, "ok")
+  | ["cli", "reset"] => ({ st with cli := {}, ccfg := { accept := sampleAccept } }, "ok")
+  | ["cli", "reset", max] =>
+    match max.toNat? with
+    | some m => ({ st with cli := {}, ccfg := { max := m, accept := sampleAccept } }, "ok")
+    | none => (st, "bad-op")
+  | ["cli", "script", a, b, c, d] =>
+    match parseScript a, parseScript b, parseScript c, parseScript d with
+    | some a, some b, some c, some d =>
+      ({ st with ccfg := { st.ccfg with cb := { onText := a, onBinary := b, onClose := c, onError := d } } }, "ok")
+    | _, _, _, _ => (st, "bad-op")
+  | ["cli", "hs"] => ({ st with cli := preUpgrade, ccfg := { accept := sampleAccept } }, "ok")
   | ["cli", "data", hx] =>
     match ofHex hx with
     | some d => stepCli st (.data d)
